@@ -44,6 +44,15 @@ Theorem key_has_shape : forall b p x e,
   wf_entropy e = true -> key_shape b p (key b p x e) = true.
 Proof. exact key_shape_key. Qed.
 
+(* No prefix is too long: for EVERY prefix length (in particular beyond the stores'
+   1024-byte name limit) the key is the prefix followed by the whole UUID text and the
+   whole extension; its length is never clamped. *)
+Theorem key_never_trimmed : forall b p x e,
+  skipn (length (eff_prefix b p)) (key b p x e) = uuid_text (mask e) ++ ext b x /\
+  firstn (length (eff_prefix b p)) (key b p x e) = eff_prefix b p /\
+  (wf_entropy e = true -> length (key b p x e) = (length (eff_prefix b p) + 36 + length (ext b x))%nat).
+Proof. exact key_whole_uuid. Qed.
+
 (* Schedule independence over lists: however the draws are assigned to uploads (any
    permutation = any interleaving of any number of goroutines and processes sharing
    the bucket), and whatever content encoding each upload carries, all keys differ. *)
